@@ -50,6 +50,7 @@ type Contract struct {
 	Guards   map[string]*Clause // "name#n" -> condition that must hold when the n-th call through value `name` happens
 	Loops    map[int]*LoopSpec
 	Pure     bool
+	Swept    bool // instance of a sweep template
 	Trusted  bool
 	MayPanic bool // explicit panic() calls are part of the contract, not obligations
 	NoVerify bool // contract only used at call sites (body not translated)
@@ -96,10 +97,25 @@ type ContractSet struct {
 	Lemmas   []*Lemma
 	TypeInvs []*TypeInv
 	Files    []string
+	ConstGlobals map[string][]string // package path -> declared constant package variables
+	Sweeps   []*Sweep
+	TablePos map[string]string // full key of a table-entry contract -> file:line:col of its function literal
+}
+
+// Sweep: an empty contract (safety obligations only: nil, bounds, division, conversions, explicit
+// panics) for every function of the package whose key matches and that has no contract of its own.
+//
+//	//@ sweep <regexp over the short key, e.g. ^\(\*?\w+\)\.Call$>
+//	//@   props C05
+//	//@   requires ...        (optional clauses, shared by every swept function)
+type Sweep struct {
+	PkgPath string
+	Pattern string
+	Con     *Contract // template
 }
 
 func NewContractSet() *ContractSet {
-	return &ContractSet{Funcs: map[string]*Contract{}, Specs: map[string]*SpecFunc{}}
+	return &ContractSet{Funcs: map[string]*Contract{}, Specs: map[string]*SpecFunc{}, TablePos: map[string]string{}, ConstGlobals: map[string][]string{}}
 }
 
 func fullKey(pkgPath, key string) string {
@@ -122,7 +138,7 @@ func fullKey(pkgPath, key string) string {
 var clauseKeywords = map[string]bool{
 	"func": true, "spec": true, "lemma": true, "props": true, "requires": true, "ensures": true,
 	"modifies": true, "loop": true, "invariant": true, "decreases": true, "pure": true, "trusted": true,
-	"maypanic": true, "cover": true, "guardcall": true, "ghost": true, "ghostset": true, "typeinv": true, "opt": true, "noverify": true, "package": true, "rec": true,
+	"maypanic": true, "cover": true, "guardcall": true, "ghost": true, "ghostset": true, "typeinv": true, "opt": true, "noverify": true, "package": true, "rec": true, "constglobal": true, "sweep": true,
 }
 
 // ParseFile reads one contract file. pkgPath is the import path the file belongs to
@@ -137,6 +153,13 @@ func (cs *ContractSet) ParseFile(file, pkgPath string) error {
 	var curLoop *LoopSpec
 	var last *Clause
 	lines := strings.Split(string(data), "\n")
+	tablePos := map[string]string{}
+	if strings.Contains(string(data), "//@ table ") {
+		lines, err = expandTables(file, lines, tablePos)
+		if err != nil {
+			return err
+		}
+	}
 	for i, raw := range lines {
 		ln := i + 1
 		t := strings.TrimSpace(raw)
@@ -181,6 +204,9 @@ func (cs *ContractSet) ParseFile(file, pkgPath string) error {
 				return fmt.Errorf("%s:%d: duplicate contract for %s", file, ln, fk)
 			}
 			cs.Funcs[fk] = cur
+			if tp, ok := tablePos[rest]; ok {
+				cs.TablePos[fk] = tp
+			}
 			curLoop, last = nil, nil
 		case "spec":
 			// spec [rec] name(a T, b U) R = expr
@@ -218,6 +244,13 @@ func (cs *ContractSet) ParseFile(file, pkgPath string) error {
 				return fmt.Errorf("%s:%d: ghost needs (Type) name type", file, ln)
 			}
 			cs.Ghosts = append(cs.Ghosts, GhostField{TypeKey: strings.Trim(f[0], "()"), Name: f[1], Type: strings.Join(f[2:], " "), PkgPath: pkgPath})
+			cur, curLoop = nil, nil
+		case "sweep":
+			cur = &Contract{Key: "sweep:" + rest, PkgPath: pkgPath, Loops: map[int]*LoopSpec{}, File: file, Line: ln, Opts: map[string]string{}}
+			cs.Sweeps = append(cs.Sweeps, &Sweep{PkgPath: pkgPath, Pattern: rest, Con: cur})
+			curLoop, last = nil, nil
+		case "constglobal":
+			cs.ConstGlobals[pkgPath] = append(cs.ConstGlobals[pkgPath], strings.Fields(rest)...)
 			cur, curLoop = nil, nil
 		case "typeinv":
 			// typeinv T self: expr
